@@ -64,19 +64,29 @@ func c07Plan(rng *lib.Rand, idx uint64) *ref.Plan {
 		o.Mesgs = nil
 	}
 	if idx%700 == 5 {
-		// a long recording: 17 000 - 20 000 records of one message type on one or two slots,
+		// a long recording: 17 000 - 20 000 (sometimes 33 000 - 36 000, 65 000 - 70 000) records of one message type on one or two slots,
 		// redefined now and then so that fields first appear (and disappear) late in the slice
 		o.FileType = 4
 		o.Mesgs = []uint16{20}
 		o.Records = 17000 + rng.Intn(3000)
+		long := uint16(20)
+		switch idx / 700 % 4 {
+		case 1:
+			o.Records = 32769 + rng.Intn(3000) // more than two batches of 2^14
+			long = 21                          // event: a lighter message, the harness holds several copies of the content
+		case 3:
+			o.Records = 65537 + rng.Intn(5000)
+			long = 21
+		}
+		o.Mesgs = []uint16{long}
 		o.Locals, o.Redefine, o.Unknown, o.Compressed, o.ZeroFieldDefs, o.RedefSimilar, o.Narrow, o.BigFileId = 1+rng.Intn(2), 0, 0, 5, 0, 0, 0, 0
 		g := lib.NewPlanGen(rng, o)
 		for l := 0; l < o.Locals; l++ {
-			g.Define(byte(l), 20, true)
+			g.Define(byte(l), long, true)
 		}
 		g.Fill()
 		for k := 0; k < 3; k++ {
-			g.Define(byte(rng.Intn(o.Locals)), 20, true)
+			g.Define(byte(rng.Intn(o.Locals)), long, true)
 			g.O.Records = 300 + rng.Intn(700)
 			g.Fill()
 		}
